@@ -128,9 +128,20 @@ def run(ctx):
                     try_get(ctx, st, arr, k)
                     ctx.case(["2d", cls.__name__, h, w, mindex.describe_key(k)], nontrivial=st.last_verdict == "judged")
                     ctx.count("c13.huge_bounds")
+    realistic_stage(ctx, thorough)
     ctx.sample({"shape": [2, 4], "key": ["tuple", 0, ["slice", 10, None, -1]], "list_model": "row 0 reversed"})
     ctx.sample({"shape": [3, 3], "key": ["tuple", ["slice", None, None, -2], -1]})
     mindex.uninstall()
+
+
+def realistic_stage(ctx, thorough):
+    """the repository's own tests and the puzzle modules' examples, executed under the monitor"""
+    from ..workloads import realistic
+
+    if ctx.shard == ctx.nshards - 1:
+        realistic.run_repo_tests(ctx)
+    if thorough:
+        realistic.run_puzzle_examples(ctx, 1500, only=lambda k: k % ctx.nshards == ctx.shard)
 
 
 def replay(w, ctx):
